@@ -177,12 +177,18 @@ def get_aggression_score(stats: Stats, verbose: bool = False) -> float:
         """
         Capturing early might favour quick attacks over slow positional play
         """
+        if stats.total_captures == 0:
+            return 0.0
+
         return (0.6 * stats.early_captures + 0.25 * stats.mid_captures + 0.15 * stats.late_captures) / stats.total_captures / 0.6
 
     def feature_capture_near_king(stats: Stats) -> float:
         """
         Playing near the opponent's king is threatening
         """
+        if stats.total_captures == 0:
+            return 0.0
+
         weights: list[int] = [0, 8, 4, 2, 1, 0, 0, 0]
         score: float = sum(weights[dist] * frequency for dist, frequency in enumerate(stats.capture_distance))
         max_score: float = max(weights) * stats.total_captures
@@ -192,6 +198,9 @@ def get_aggression_score(stats: Stats, verbose: bool = False) -> float:
         """
         Moving near the opponent's king is threatening
         """
+        if stats.total_noncaptures == 0:
+            return 0.0
+
         weights: list[int] = [0, 8, 4, 2, 1, 0, 0, 0]
         score: float = sum(weights[dist] * frequency for dist, frequency in enumerate(stats.noncapture_distance))
         max_score: float = max(weights) * stats.total_noncaptures
@@ -333,6 +342,9 @@ def get_positional_score(stats: Stats, verbose: bool = False) -> float:
         """
         Capturing early means less pieces to manoeuvre with
         """
+        if stats.total_captures == 0:
+            return 0.0
+
         return (0.6 * stats.late_captures + 0.25 * stats.mid_captures + 0.15 * stats.early_captures) / stats.total_captures / 0.6
 
     if stats.num_games == 0:
